@@ -18,8 +18,9 @@ def run(ctx, chk):
                        % len(prog.facts["units"]))
     chk.rule("C13.ext", "every external symbol referenced by a library unit is a non-allocating libc function; "
                         "malloc/realloc/free appear only as the initialisers of _cbor_malloc/_cbor_realloc/_cbor_free")
-    chk.rule("C13.indirect", "every indirect call is through a load of one of the three allocator pointers or of a "
-                             "field of struct cbor_callbacks")
+    chk.rule("C13.indirect", "every indirect call is through a load of one of the three allocator pointers, of a field of struct "
+                             "cbor_callbacks, or reaches a statically known set of library functions (constant dispatch table, routine "
+                             "passed to a unit-internal helper)")
     chk.rule("C13.setter", "the allocator pointers are stored to only in cbor_set_allocs, each from the parameter of "
                            "the matching position; their only other use is load-then-call")
     chk.rule("C13.provenance", "every block passed to _cbor_free/_cbor_realloc is an allocator result obtained in the "
@@ -95,9 +96,17 @@ def run(ctx, chk):
             if i.callee is None:
                 n_ind += 1
                 k, which = indirect_kind(i)
+                if k == "unknown":
+                    from effects import indirect_targets
+                    tg = indirect_targets(prog, f, i)
+                    if tg and not any(t_ in ALLOC_GLOBALS for t_ in tg):
+                        # a constant dispatch table / a routine passed to a unit-internal helper: library functions only,
+                        # whose own allocator traffic is judged where they are defined
+                        k, which = "library", ",".join(tg)[:60]
                 chk.ob("C13.indirect", "indirect call in %s" % f.name, k != "unknown", i.loc(), fn=f.name,
                        key="%s:%s:%s" % (f.name, k, which), nontrivial=False,
-                       detail="" if k != "unknown" else "callee value is neither an allocator pointer nor a callback-table field")
+                       detail="" if k != "unknown" else "callee value is neither an allocator pointer, a callback-table field, nor a "
+                                                        "statically known set of library functions")
     chk.floor("C13.indirect", "indirect calls", n_ind, 60)
 
     # ---- rule setter ---------------------------------------------------------
@@ -211,6 +220,49 @@ def run(ctx, chk):
             root, steps = aroot, tuple(asteps) + tuple(hsteps) + tuple(steps)
         return root, steps
 
+    def classify_location(f, root, steps, depth=0):
+        """(ok, why) for a block pointer read from the memory location root/steps (an access path in f)"""
+        if root[0] == "arg" and f.internal and depth < 3:
+            # a location reached through a parameter of a unit-internal helper: judged at every call site, with the
+            # caller's argument substituted for the parameter
+            sites = [(g, c) for g in prog.lib_funcs() for c in g.calls(f.name)]
+            if sites:
+                for g, c in sites:
+                    aroot, asteps = see_through_accessors(g, *apath(c.operands[root[1]]))
+                    saved = cur_call_box[0]
+                    cur_call_box[0] = c
+                    try:
+                        ok, why = classify_location(g, aroot, tuple(asteps) + tuple(steps), depth + 1)
+                    finally:
+                        cur_call_box[0] = saved
+                    if not ok:
+                        return False, "via call at %s: %s" % (c.loc(), why)
+                return True, "location reached through a helper's parameter; recognised at all %d call sites" % len(sites)
+        # the item itself, loaded from *item_ref in the release routine
+        if f.name == "cbor_decref" and root == ("arg", 0) and steps == ():
+            return True, "the item block, in the release routine"
+        # item.data
+        if steps and steps[-1] == ("off", off["data"]):
+            # which item, and which types can it have here (dominating type tests + the function's own
+            # harvested CBOR_ASSERT precondition)?
+            item_path = (root, steps[:-1])
+            tys = sorted(item_types(f, cur_call_box[0].block, item_path))
+            bad = [t for t in tys if t not in freeable_types]
+            if bad:
+                names = [n for n, v in types.items() if v in bad]
+                return False, ("item.data released/resized where the item may be %s, whose data is an interior "
+                               "pointer into the item block" % names)
+            return True, "item.data where the item's type is within %s (data separately allocated or NULL)" % tys
+        st = prog.structs.get("struct.cbor_indefinite_string_data")
+        if steps and steps[-1][0] == "off" and len(steps) >= 2 and steps[-2] == ("load",):
+            # field of the block item.data points to: chunks table
+            coff = prog.field_offset("cbor_indefinite_string_data", "chunks")
+            if steps[-1][1] == coff:
+                return True, "chunks table of an indefinite string"
+        if steps in ((), (("off", 0),)) and f.name.startswith("_cbor_stack"):
+            return True, "top record of the decoding stack"
+        return False, "load from unrecognised location %s%s" % (root, list(steps))
+
     def classify(f, v, depth=0):
         """returns (ok, why)"""
         v0 = strip_casts(v)
@@ -242,39 +294,17 @@ def run(ctx, chk):
             return True, "parameter of internal helper; all %d call sites pass an owned block" % len(sites)
         if isinstance(v0, Inst) and v0.op == "load":
             root, steps = see_through_accessors(f, *apath(v0.operands[0]))
-            # the item itself, loaded from *item_ref in the release routine
-            if f.name == "cbor_decref" and root == ("arg", 0) and steps == ():
-                return True, "the item block, in the release routine"
-            # item.data
-            if steps and steps[-1] == ("off", off["data"]):
-                # which item, and which types can it have here (dominating type tests + the function's own
-                # harvested CBOR_ASSERT precondition)?
-                item_path = (root, steps[:-1])
-                tys = sorted(item_types(f, cur_call.block, item_path))
-                bad = [t for t in tys if t not in freeable_types]
-                if bad:
-                    names = [n for n, v in types.items() if v in bad]
-                    return False, ("item.data released/resized where the item may be %s, whose data is an interior "
-                                   "pointer into the item block" % names)
-                return True, "item.data where the item's type is within %s (data separately allocated or NULL)" % tys
-            st = prog.structs.get("struct.cbor_indefinite_string_data")
-            if steps and steps[-1][0] == "off" and len(steps) >= 2 and steps[-2] == ("load",):
-                # field of the block item.data points to: chunks table
-                coff = prog.field_offset("cbor_indefinite_string_data", "chunks")
-                if steps[-1][1] == coff:
-                    return True, "chunks table of an indefinite string"
-            if steps in ((), (("off", 0),)) and f.name.startswith("_cbor_stack"):
-                return True, "top record of the decoding stack"
-            return False, "load from unrecognised location %s%s" % (root, list(steps))
+            return classify_location(f, root, tuple(steps), depth)
         return False, "unrecognised pointer %r" % (v0,)
 
+    cur_call_box = [None]
     n_rel = 0
     ctl_fired = False
     for f in prog.funcs.values():
         for c, g in rules.alloc_calls(f):
             if g == "_cbor_malloc":
                 continue
-            cur_call = c
+            cur_call_box[0] = c
             ok, why = classify(f, c.operands[0])
             if f.is_extra:
                 if f.name == "verif_ctl_free_interior" and not ok:
